@@ -46,6 +46,7 @@ import threading as _real_threading
 from typing import Any, Dict, List, Optional, Tuple
 
 from . import common as C
+from . import priv as _PV
 from . import datalog_corr as D
 
 SHARED = {"wbuf": "w", "subdivide_flag": "f", "collection_stopped": "s", "formatter": "m", "fd": "d"}
@@ -357,7 +358,7 @@ def run_fine_case(case: Dict[str, Any]) -> Dict[str, Any]:
             ctl.abort = False
         ctl.free = True
         if dc is not None:
-            dc._close = True
+            _PV.set_flag_read_by(dc, "write", True, "_close")      # the writer loop's stop flag, whatever it is called
             if ctl.at.get("W") != "finished":
                 ctl.go["W"].release()
             try:
@@ -376,7 +377,7 @@ def run_fine_case(case: Dict[str, Any]) -> Dict[str, Any]:
                     except Exception:  # noqa: BLE001
                         pass
             finally:
-                dc._dead = True
+                _PV.set_flag_read_by(dc, "__del__", True, "_dead")     # keeps __del__ from closing again
         root_logger.removeHandler(wc)
         reinstate(dcm, old[0])
         if old[2] is None:
